@@ -237,8 +237,48 @@ func genC20(t *rapid.T) C20Case {
 	}
 	lay.AllowComments = allowComments
 	xml := append(append([]byte(c.Prolog), h.Serialize(root, lay)...), c.Epilog...)
-	c.Encoded = h.Encode(xml, pres)
+	c.Encoded = respell(h.Encode(xml, pres), rapid.SampledFrom([]string{"canonical", "canonical", "wrapped", "crlf-wrapped", "trailing-newline", "nonzero-pad-bits"}).Draw(t, "b64"))
 	return c
+}
+
+// respell rewrites a canonical base64 string into another spelling that base64.StdEncoding decodes to the
+// same bytes: line wrapping (StdEncoding ignores CR / LF) or non-zero unused bits in the final quantum.
+func respell(b64 string, how string) string {
+	switch how {
+	case "wrapped", "crlf-wrapped":
+		nl := "\n"
+		if how == "crlf-wrapped" {
+			nl = "\r\n"
+		}
+		var sb strings.Builder
+		for i := 0; i < len(b64); i += 76 {
+			end := i + 76
+			if end > len(b64) {
+				end = len(b64)
+			}
+			sb.WriteString(b64[i:end] + nl)
+		}
+		return sb.String()
+	case "trailing-newline":
+		return b64 + "\n"
+	case "nonzero-pad-bits":
+		const alphabet = "ABCDEFGHIJKLMNOPQRSTUVWXYZabcdefghijklmnopqrstuvwxyz0123456789+/"
+		n := len(b64)
+		pad := 0
+		for pad < 2 && n-pad > 0 && b64[n-1-pad] == '=' {
+			pad++
+		}
+		if pad == 0 || n-pad-1 < 0 {
+			return b64
+		}
+		i := strings.IndexByte(alphabet, b64[n-pad-1])
+		if i < 0 {
+			return b64
+		}
+		// the low 2 (one '=') or 4 (two '=') bits of the last digit are unused
+		return b64[:n-pad-1] + string(alphabet[i|1]) + b64[n-pad:]
+	}
+	return b64
 }
 
 func checkC20(c C20Case) h.Outcome {
